@@ -130,6 +130,40 @@ switch (acc.length) { case 2: log("two"); case 5: log("fall"); break; default: l
 for (var k in {p: 1, q: 2}) { acc.push(k); } with ({wv: 9}) { acc.push(wv); }
 acc.join() + [1, 2].map(function(v) { return v * 2; });
 `},
+	// The next bodies first use a construct normally (the "victim" part, logged)
+	// and then leave the same kind of construct ABRUPTLY, by a throw from the
+	// middle of it, over overlapping property names: whatever per-statement
+	// scratch state the interpreter keeps outside the runtime (a pooled set of
+	// visited names, a cached comparator, a reused buffer) is left in its
+	// mid-statement condition, and the victim part of the NEXT runtime - run
+	// sequentially after it or interleaved - would see it.
+	{"abortloops", `
+var seen = []; for (var k in {alpha: 1, beta: 2, gamma: 3}) { seen.push(k); }
+log(seen.join());
+try { for (var k2 in {alpha: 1, beta: 2}) { if (k2 == "beta") throw k2; } } catch (e) { log("forin", e); }
+try { for (var i = 0; i < 3; i++) { if (i == 1) throw i; } } catch (e1) { log("for", e1); }
+try { var w = 0; while (true) { if (++w == 2) throw w; } } catch (e2) { log("while", e2); }
+try { switch (1) { case 1: with ({p: 5}) { try { throw p; } finally { log("fin"); } } } } catch (e3) { log("switch-with", e3); }
+seen.length;
+`},
+	{"abortcalls", `
+var o = {alpha: 1, beta: 2};
+log(Object.keys(o).join(), [3, 1, 2].sort(function(a, b) { return a - b; }).join(), "a-b".replace(/-/, function() { return "+"; }), JSON.stringify(o));
+try { [1, 2, 3].forEach(function(v) { if (v == 2) throw "fe" + v; }); } catch (e) { log(e); }
+try { [3, 1, 2].sort(function(a, b) { throw "cmp"; }); } catch (e1) { log(e1); }
+try { "a-b-c".replace(/-/g, function(m, off) { if (off > 1) throw "rp" + off; return "+"; }); } catch (e2) { log(e2); }
+try { JSON.stringify({alpha: 1, beta: {toJSON: function() { throw "tj"; }}}); } catch (e3) { log(e3); }
+try { JSON.parse('{"beta": 2}', function(k, v) { if (v === 2) throw "rv"; return v; }); } catch (e4) { log(e4); }
+`},
+	// halt() queues a panicking function on the runtime's OWN Interrupt channel
+	// (the documented way to stop a script): the for-in below is left by a Go
+	// panic that no JavaScript handler sees, and Run itself ends abruptly.
+	{"abortintr", `
+var names = []; for (var k in {alpha: 1, beta: 2, gamma: 3}) { names.push(k); }
+log(names.join(), Object.keys({beta: 1, alpha: 2}).join());
+for (var k2 in {alpha: 1, beta: 2}) { halt(); log("after halt", k2); }
+log("not reached when the runtime has its own Interrupt channel");
+`},
 }
 
 // Prelude is run once on a template runtime before it is copied: it gives the
@@ -189,6 +223,8 @@ const Probe = `
 T.arr.push(T.counter++); T.d.setUTCDate(T.next() + 1); T.obj.n.deep[0]++; delete T.obj.gone; T.d.setTime(T.d.getTime() + TID);
 log(T.arr.join(), T.acc, T.bound(T.args[0]++), T.obj.n.deep[0], T.d.getTime(), T.re.test("ttxtt"), T.re.lastIndex, T.err.message += "!");
 log(T.cat("<" + TID + ">"), T.cat4(TID, "!"), T.cat1(TID), T.pushb(TID), T.bobj(TID), T.seen, "gone" in T.obj);
+if (BRF) { T.made = gmk(); Object.getPrototypeOf(T.made).leak = "copy" + TID; }
+log("bridge", BRF && Object.getPrototypeOf(T.made) === Array.prototype, BRF && T.made instanceof Array, BRF && T.made.join(), BRF && gff()(), gslice.length, BRS && (gslice.length = TID, gslice.length), gslice[0], gmap.a + gmap.b, gstruct.N + gstruct.Twice(), garray[1], gconv(TID), gcb(function(x) { return x + TID; }), "/bridge");
 T.where = "copy" + TID; T.gs = TID; T.alias[0] += TID;
 log(T.fact(3), T.same(), T.calls, T.ev(), T.cth(), T.wth(), T.gs, T.fns[0](), T.fns[1].f(), T.child.inc(), T.proto.pc, T.rd());
 `
